@@ -192,14 +192,26 @@ pub fn run_case(c: &Case) -> Result<(), (String, String)> {
 
 /// A configuration that asks for an evaluator identifier which is not registered must fail
 /// before anything executes.
-fn check_missing_evaluator(want_a: bool) -> Option<(String, String)> {
+const PLACES: [&str; 6] = ["top-level", "loop-body", "if-body", "else-body", "scope", "loop>else>scope"];
+
+fn check_missing_evaluator(want_a: bool, place: usize) -> Option<(String, String)> {
     let executed = Arc::new(AtomicU32::new(0));
     let e2 = executed.clone();
     let problem = RealP::new(1, -1.0, 1.0, FKind::Sphere, Instr::new());
     let builder = Configuration::<RealP>::builder().debug(move |_p, _s| {
         e2.fetch_add(1, Ordering::SeqCst);
     });
-    let config = if want_a { builder.evaluate_with::<A>().build() } else { builder.evaluate_with::<Global>().build() };
+    use mahf::conditions::LessThanN;
+    let ev = move |b: mahf::configuration::ConfigurationBuilder<RealP>| if want_a { b.evaluate_with::<A>() } else { b.evaluate_with::<Global>() };
+    let cond = || LessThanN::iterations::<RealP>(1);
+    let config = match place {
+        0 => ev(builder).build(),
+        1 => builder.while_(cond(), ev).build(),
+        2 => builder.if_(cond(), ev).build(),
+        3 => builder.if_else_(cond(), |b| b, ev).build(),
+        4 => builder.scope_(ev).build(),
+        _ => builder.while_(cond(), move |b| b.if_else_(cond(), |b| b, move |b| b.scope_(ev))).build(),
+    };
     let r = catch(|| {
         config.optimize_with(&problem, |st| {
             st.insert(crate::engine::tape::scripted_random(0));
@@ -212,8 +224,8 @@ fn check_missing_evaluator(want_a: bool) -> Option<(String, String)> {
             Ok(())
         })
     });
-    let head = "C06 missing-evaluator";
-    let ctx = |w: String| format!("configuration evaluating with identifier {} while only the other identifier is registered: {}", if want_a { "A" } else { "Global" }, w);
+    let head = format!("C06 missing-evaluator step-in={}", PLACES[place.min(5)]);
+    let ctx = |w: String| format!("configuration with an evaluation step (identifier {}) in {} while only the other identifier is registered: {}", if want_a { "A" } else { "Global" }, PLACES[place.min(5)], w);
     match r {
         Err(p) => Some((format!("{} panic", head), ctx(format!("panicked: {}", p)))),
         Ok(Ok(_)) => Some((format!("{} run-succeeded", head), ctx("the run returned Ok".into()))),
@@ -294,12 +306,14 @@ pub fn run_part_a(rep: &mut Report) {
     p.bound("gated_completion_orders", gated).bound("free_running_small_pool_cases_not_exhaustive", free_small);
     p.sample(json!({"population": "3 individuals, middle one pre-evaluated with a stale value", "evaluator": "Parallel on 4 threads", "completion_order": [2, 0, 1]}));
     for want_a in [false, true] {
-        p.transitions += 1;
-        p.traces += 1;
-        p.states += 1;
-        p.outcome("missing-evaluator");
-        if let Some((s, d)) = check_missing_evaluator(want_a) {
-            p.violate(s, d, json!({"kind": "missing", "want_a": want_a}));
+        for place in 0..PLACES.len() {
+            p.transitions += 1;
+            p.traces += 1;
+            p.states += 1;
+            p.outcome("missing-evaluator");
+            if let Some((s, d)) = check_missing_evaluator(want_a, place) {
+                p.violate(s, d, json!({"kind": "missing", "want_a": want_a, "place": place}));
+            }
         }
     }
     p.require(gated >= 6, "no gated completion orders were explored");
@@ -325,7 +339,7 @@ pub fn run_budget(rep: &mut Report) {
             let l2 = log.clone();
             let body = move || {
                 let problem = RealP::new(2, -1.0, 2.0, FKind::Sphere, Instr::new());
-                let cond: Box<dyn mahf::Condition<RealP>> = Box::new(LoopProbe { inner: LessThanN::evaluations(b), log: l2.clone() });
+                let cond: Box<dyn mahf::Condition<RealP>> = Box::new(LoopProbe { inner: LessThanN::evaluations(b), log: l2.clone(), limit: 10_000 });
                 let config = if which == 0 {
                     ga::real_ga(ga::RealProblemParameters { population_size: 4, tournament_size: 2, pm: 0.5, deviation: 0.1, pc: 0.8 }, cond)
                 } else {
@@ -376,7 +390,7 @@ pub fn replay_a(case: &Value) -> Result<Vec<(String, String)>, String> {
             run_budget(&mut r);
             Ok(r.violations().into_iter().map(|v| (v.sig.clone(), v.detail.clone())).collect())
         }
-        "missing" => Ok(check_missing_evaluator(case["want_a"].as_bool().unwrap_or(false)).into_iter().collect()),
+        "missing" => Ok(check_missing_evaluator(case["want_a"].as_bool().unwrap_or(false), case["place"].as_u64().unwrap_or(0) as usize).into_iter().collect()),
         "evalstep" => {
             let want = case["case"].as_str().ok_or("no case")?;
             for c in cases(true).into_iter().chain(cases(false)) {
